@@ -169,8 +169,8 @@ PROPS = {
                    "token against the datagrams actually delivered and checks the ACK/RST obligations from the trace.",
         level_note="Trusted base: sim/sim.cc, ref/refcodec.h, scripted server in props/C07.cc. 'Never neither' is demanded only where the network delivered an ACK or a response, "
                    "or nothing at all (then exactly one NACK); an empty ACK followed by a lost NON response legitimately leaves the exchange open.",
-        quick=rc(8, 6000),
-        thorough=rc(14, 150000),
+        quick=rc(4, 6000) + rc(6, 6000, max_size=320),
+        thorough=rc(6, 150000) + rc(8, 150000, max_size=320),
         **SIM,
     ),
     "C06": dict(
